@@ -221,8 +221,15 @@ structure Facts06 where
     namespace the class ended up in (the default namespace of whichever class reached it first) -/
 structure App where
   facts : Facts06
+  /-- the leaf text codec switches (C08): enumeration literals are written with `to_unicode` -/
+  leaf : Facts08
   iface : Iface
   enumKeys : List (List Text × Key) := []
+  /-- the `values=` facet on the non-string primitives (integer, boolean, date, time, dateTime,
+      duration), which the shared `PrimTy` does not carry: every member of the application whose
+      primitive is `p` declares the value list `values.lookup p` (a coarser grain than spyne's
+      per-member declaration; the generator of universes keeps to it) -/
+  values : List (PrimTy × List Val) := []
 
 def App.tns (A : App) : Text := A.iface.tns
 
@@ -314,6 +321,23 @@ def primFacets (F6 : Facts06) : PrimTy → List Facet
   | .enum names => names.map .enumeration
   | _ => []
 
+/-- the declared `values` of a non-string primitive -/
+def App.extraVals (A : App) : PrimTy → List Val
+  | .unicode _ _ _ _ => []
+  | .enum _ => []
+  | .bytes _ => []
+  | p => (A.values.lookup p).getD []
+
+/-- `simple_get_restriction_tag`: one `<xs:enumeration value=…>` per declared value, the literal
+    produced by the XML protocol's `to_unicode` (what is also put on the wire) -/
+def App.enumLits (A : App) (p : PrimTy) : List Text := (A.extraVals p).filterMap (leafToText A.leaf p)
+
+/-- all facets of the restriction written for `p`: enumerations first, then ranges / lengths / pattern -/
+def primFacetsA (A : App) (p : PrimTy) : List Facet := (A.enumLits p).map .enumeration ++ primFacets A.facts p
+
+/-- `cls.is_default(cls)`: no facet that needs a restriction, `values` included -/
+def isDefaultA (A : App) (p : PrimTy) : Bool := primIsDefault p && (A.extraVals p).isEmpty
+
 def isEnum : PrimTy → Bool
   | .enum _ => true
   | _ => false
@@ -330,7 +354,7 @@ def parentRestrName (F6 : Facts06) (cname k : Text) : Text := cname ++ '_' :: (k
 def itemKey (A : App) (cns cname k : Text) : Ty → Key
   | .prim p _ =>
     if isEnum p then (match p with | .enum names => A.enumKey names | _ => (A.tns, []))
-    else if primIsDefault p then (A.tns, (builtinOf p).name)
+    else if isDefaultA A p then (A.tns, (builtinOf p).name)
     else (cns, restrName A.facts cname k)
   | .obj name ns _ _ _ => (ns, name)
   | .arr member elem _ => (memberNs A.tns cns member elem, A.facts.arrayPrefix ++ (itemKey A cns cname k elem).2 ++ A.facts.arraySuffix)
@@ -338,7 +362,7 @@ def itemKey (A : App) (cns cname k : Text) : Ty → Key
 /-- the `type=` attribute of the member's element particle -/
 def refOf (A : App) (cns cname k : Text) : Ty → TypeRef
   | .prim p o =>
-    if !isEnum p && primIsDefault p then .builtin (builtinOf p) else .named (itemKey A cns cname k (.prim p o))
+    if !isEnum p && isDefaultA A p then .builtin (builtinOf p) else .named (itemKey A cns cname k (.prim p o))
   | t => .named (itemKey A cns cname k t)
 
 structure Defs where
@@ -351,16 +375,16 @@ def Defs.append (a b : Defs) : Defs := { simple := a.simple ++ b.simple, complex
 /-- the named components a member type contributes (classes contribute theirs through the registry) -/
 def tyDefs (A : App) (cns cname k : Text) : Ty → Defs
   | .prim p o =>
-    if isEnum p || !primIsDefault p then
-      { simple := [(itemKey A cns cname k (.prim p o), { base := builtinOf p, facets := primFacets A.facts p })] }
+    if isEnum p || !isDefaultA A p then
+      { simple := [(itemKey A cns cname k (.prim p o), { base := builtinOf p, facets := primFacetsA A p })] }
     else {}
   | .obj _ _ _ _ _ => {}
   | .arr member elem o =>
     (tyDefs A cns cname k elem).append
       { simple := (match elem with
                    | .prim p _ =>
-                     if !isEnum p && !primIsDefault p then
-                       [((cns, parentRestrName A.facts cname k), { base := builtinOf p, facets := primFacets A.facts p })]
+                     if !isEnum p && !isDefaultA A p then
+                       [((cns, parentRestrName A.facts cname k), { base := builtinOf p, facets := primFacetsA A p })]
                      else []
                    | _ => []),
         complex := [(itemKey A cns cname k (.arr member elem o),
@@ -465,7 +489,7 @@ def isIntBuiltin : Builtin → Option IntKind
   | _ => none
 
 def facetApplies (b : Builtin) : Facet → Bool
-  | .enumeration _ => b.isString
+  | .enumeration v => (match b with | .boolean => false | _ => b.lexOk (b.norm v))   -- XSD: no enumeration on xs:boolean
   | .length _ => b.isString
   | .minLength _ => b.isString
   | .maxLength _ => b.isString
